@@ -36,7 +36,7 @@ WHAT = {
     ("scope", "ndflt"): "a default expression of an inner definition that reads a variable of a function further out raises NameError (only names in bodies and decorators are captured)",
     ("scope", "dyncap"): "free variables are looked up in the tables of the CALLERS on the stack when a function is defined (dynamic scoping): a caller's local shadows the global",
     ("scope", "nldyn"): "a name that an inner function declares nonlocal AND assigns is not passed on to the functions in between: its cell is looked up on the call stack when the inner function is defined - SyntaxError 'no binding for nonlocal' or a caller's same-named variable when the function in between is called from elsewhere",
-    ("scope", "annloc"): "a variable bound by an annotated assignment (x: T = value) in a function is invisible to the function's inner functions and classes (the static pre-pass does not treat AnnAssign as a binding): NameError, or a same-named global is used",
+    ("scope", "annloc"): "a variable bound by an annotated assignment (x: T = value) in a function is no local for the static pre-pass (AnnAssign is not treated as a binding): it is invisible to the function's inner functions and classes (NameError, or a same-named global is used) and a read before the assignment finds an outer variable instead of raising UnboundLocalError",
     ("scope", "unexplained"): "tracer log is not the one the scoping machine computes",
     ("bind", "unexplained"): "call outcome is not the one Bind yields",
 }
